@@ -231,7 +231,7 @@ def cases(draw):
 class C33(core.Prop):
     id = "C33"
     drivers = ["mpi_interp"]
-    sizes = {"quick": 500, "thorough": 12000}
+    sizes = {"quick": 300, "thorough": 8000}
     max_workers = 4
     technique = ("property-based testing (Hypothesis) + exhaustive enumeration of small grids: integer-arithmetic reference of MPI-3.1 "
                  "chapter 7 (row-major rank<->coordinates, periodic wrap, shift neighbours, Cart_sub partition) compared with the "
